@@ -131,6 +131,10 @@ fn examine_at(text: &str, which: Which, tier: Tier, depth: usize) {
             }
             match which {
                 Which::C03 => soundness(text, &acc),
+                // C06 normalises the program the way the checker would: an application that does not
+                // terminate in the reference (a recursive function applied for the first time) is
+                // divergence written in the program, not a finding
+                Which::C06 if depth > 0 && !matches!(interp::run(&acc.source, 20_000), Outcome::Value(_) | Outcome::DivisionByZero) => count!("skipped_divergent"),
                 _ => run(text, &acc, which, tier),
             }
             applications(text, &acc.ty, which, tier, depth);
@@ -1023,7 +1027,13 @@ fn operand_programs() -> Vec<(String, String)> {
                     Op::Gt => (x > y).to_string(),
                     Op::Ge => (x >= y).to_string(),
                 };
-                out.push((format!("{} {} {}", spell(a, style), op.text(), spell(b, style)), want));
+                out.push((format!("{} {} {}", spell(a, style), op.text(), spell(b, style)), want.clone()));
+                // operands that still have to be computed when the operator is reached: on the right
+                // only, on the left only, on both sides (a rule that rebuilds the node after stepping
+                // one operand has to rebuild the same operator)
+                out.push((format!("{} {} ({} + 0)", spell(a, style), op.text(), spell(b, style)), want.clone()));
+                out.push((format!("(1 * {}) {} {}", spell(a, style), op.text(), spell(b, style)), want.clone()));
+                out.push((format!("(if true then {} else 0) {} ((n : int) => n) {}", spell(a, style), op.text(), spell(b, style)), want));
             }
         }
         out.push((format!("-{}", spell(a, 1)), (-parse(a)).to_string()));
